@@ -369,7 +369,8 @@ pub fn worker_main(prop: &Property, args: &WorkerArgs) -> i32 {
                         if let Some(k) = known_match(&known, prop.id, sub.name, &text, &msg) {
                             *st.known.entry(k.what.clone()).or_insert(0) += 1;
                         } else if st.violations.len() < 5 {
-                            st.violations.push(json!({"case": case, "msg": msg, "from": "enumerated"}));
+                            let broken = msg.starts_with("oracle_broken:");
+                            st.violations.push(json!({"case": case, "msg": msg, "from": "enumerated", "oracle_broken": broken}));
                         }
                     }
                 }
@@ -427,7 +428,9 @@ pub fn worker_main(prop: &Property, args: &WorkerArgs) -> i32 {
                 if let Err(e) = run {
                     match e {
                         TestError::Fail(reason, minimal) => {
-                            stats.borrow_mut().violations.push(json!({"case": minimal, "msg": reason.message().to_string(), "from": "generated+shrunk"}));
+                            let m = reason.message().to_string();
+                            let broken = m.starts_with("oracle_broken:");
+                            stats.borrow_mut().violations.push(json!({"case": minimal, "msg": m, "from": "generated+shrunk", "oracle_broken": broken}));
                         }
                         TestError::Abort(reason) => {
                             stats.borrow_mut().violations.push(json!({"case": null, "msg": format!("proptest aborted: {}", reason.message()), "oracle_broken": true}));
